@@ -35,6 +35,7 @@ type Verifier struct {
 	cells      map[string]*types.Var
 	renderTag  map[string]string
 	curProp    string
+	curProps   []string
 }
 
 func (v *Verifier) isRepoPkg(path string) bool { return v.repoPkgs[path] }
